@@ -146,7 +146,7 @@ class Lexer:
     @staticmethod
     def t_QUOTED_VERBATIM_STRING(t):
         """
-        `([^`\\\\]|\\\\.)*`
+        `([^`\\\\]|\\\\(.|\\n))*`
         """
         t.value = t.value[1:-1].replace('\\`', '`')
         t.type = 'QUOTED_STRING'
